@@ -491,9 +491,16 @@ Emit == (MaxHist = 0 /\ InDomain(x)) =>
 EmitScript == (MaxHist > 0 /\ Len(hist) = MaxHist + 1) =>
           PrintT(<<"@@", ToJson([s |-> [j \in DOMAIN hist |-> <<hist[j][1], hist[j][2].v, hist[j][2].k>>]])>>)
 
-(* vacuity companions: the catalogue exercises ties, clipping into a gap, half-even rounding *)
-HasDiscreteTie == \E d \in Decs : d.k = "discrete" /\ \E a \in Vals : IsTie(a, Rng(d.iv[1]))
-HasGapClip == \E d \in Decs : d.k = "bounds" /\ Len(d.iv) > 1 /\
-                 \E a \in Vals : ~InSome(a, d.iv) /\ \E j, m \in DOMAIN d.iv : d.iv[j][2] < a /\ a < d.iv[m][1]
-HasHalf == \E a \in Vals : a % S # 0 /\ (2 * a) % S = 0
+(* vacuity companions (ASSUMEd for the quick and thorough catalogues in MC_Transforms): the     *)
+(* bounded class really contains ties, points in a gap nearer to the upper interval, halves to  *)
+(* round, duplicates to replace, out-of-range and negative index members                        *)
+HasDiscreteTie(DD, VV) == \E d \in DD : d.k = "discrete" /\ \E a \in VV : IsTie(a, Rng(d.iv[1]))
+HasGapClip(DD, VV) == \E d \in DD : d.k = "bounds" /\ Len(d.iv) > 1 /\ d.p[1] = 1 /\ d.p[2] = 1 /\
+                        \E a \in VV : ~InSome(a, d.iv) /\ \E j, m \in DOMAIN d.iv :
+                            d.iv[j][2] < a /\ a < d.iv[m][1] /\ d.iv[m][1] - a < a - d.iv[j][2]
+HasBoundsTie(DD, VV) == \E d \in DD : d.k = "bounds" /\ \E a \in VV : ~InSome(a, d.iv) /\ Cardinality(NearestIvs(a, d.iv)) > 1
+HasHalfEven(VV) == \E a, b \in VV : a % S # 0 /\ b % S # 0 /\ RoundTo(a, S) < a /\ RoundTo(b, S) > b
+HasIndexClasses(DD, LL) == \E d1, d2 \in DD : /\ d1.k = "integers" /\ \E n \in LL : HasOOR(d1.ix, n) /\ Sel(d1.ix, n) # {}
+                                              /\ d2.k = "bounds" /\ \E j \in DOMAIN d2.ix : d2.ix[j] < 0
+Vacuity(DD, VV, LL) == HasDiscreteTie(DD, VV) /\ HasGapClip(DD, VV) /\ HasBoundsTie(DD, VV) /\ HasHalfEven(VV) /\ HasIndexClasses(DD, LL)
 =============================================================================
